@@ -292,6 +292,20 @@ class Ctx:
             sv.add(*fs)
             sv.add(*lem)
             res = str(sv.check())
+            if res == 'unknown' and timeout is None:
+                # nlsat is sensitive to variable order: retry with other seeds before giving up
+                for seed in (7, 1234):
+                    sv = z3.Solver()
+                    sv.set('timeout', int(self.o['timeout']))
+                    sv.set('random_seed', seed)
+                    z3.set_param('nlsat.seed', seed)
+                    sv.add(*fs)
+                    sv.add(*lem)
+                    res = str(sv.check())
+                    self.retries = getattr(self, 'retries', 0) + 1
+                    if res != 'unknown':
+                        break
+                z3.set_param('nlsat.seed', 0)
             last_tier = tr
             self.last = sv
             if res == 'unsat':
@@ -1114,6 +1128,9 @@ class SInt:
         return True if r is NotImplemented else r
 
     __hash__ = None
+
+    def __bool__(s):
+        return bool(SB(s.t != 0))
 
     def concretize(s, lo=-64, hi=64):
         """solver-enumerated case split (each value is a path)"""
